@@ -216,7 +216,7 @@ def allowedType (comm op ty : String) : Bool :=
   | "mpi", "iallreduce" => ty == "int" || ty == "vec" || ty == "ref" || ty == "bool"
   | "seq", "iallreduce" => ty == "int" || ty == "vec" || ty == "bool"
   | _, "iallreduce1" => ty == "int" || ty == "vec" || ty == "ref" || ty == "bool"
-  | "mpi", "p2p" => ty == "int" || ty == "vec" || ty == "bool"
+  | "mpi", "p2p" => ty == "int" || ty == "vec" || ty == "bool" || ty == "ref"
   | _, _ => false
 
 /-- two-buffer operations of `Communication<MPI_Comm>`: the future is an `MPIFuture<R,S>` owning a send object -/
